@@ -408,7 +408,8 @@ func StrDocs() *TextSet {
 // numbers (for SetKeys(id)).
 func KeyedStr() *TextSet {
 	return memoize("KeyedStr", func() *TextSet {
-		ids := []V{"a", "b", "", true, 1.0, "1"}
+		// ids that print alike (1 / "1", true / "true") and structured ids
+		ids := []V{"a", "b", "", true, 1.0, "1", "true", map[string]interface{}{"k": 1.0}, map[string]interface{}{"k": 2.0}, []interface{}{1.0}}
 		vals := []V{1.0, 2.0, []interface{}{1.0, 2.0}}
 		var members [][]V
 		for _, id := range ids {
@@ -439,6 +440,45 @@ func KeyedStr() *TextSet {
 // objects of 9..40 keys - Go maps change their iteration behaviour above 8 entries -, nesting
 // depth 12 and 25, strings of 1000 characters, 20 keyed members) and simple variants of each,
 // so that a size threshold or "fast path for big inputs" cannot hide behind the small universes.
+// Keyed2Same: two set keys whose values come from the same domain, so that key values can be swapped between the
+// key fields ({"id":1,"t":2} vs {"id":2,"t":1}); every member carries both keys, identities are unique in an array.
+func Keyed2Same() *TextSet {
+	return memoize("Keyed2Same", func() *TextSet {
+		var members []V
+		for _, i := range []float64{1, 2} {
+			for _, j := range []float64{1, 2} {
+				for _, v := range []float64{1, 2} {
+					members = append(members, map[string]interface{}{"id": i, "t": j, "v": v})
+				}
+			}
+		}
+		out := []V{[]interface{}{}}
+		for x, m := range members {
+			out = append(out, []interface{}{m})
+			for y, n := range members {
+				if x/2 != y/2 { // different (id,t)
+					out = append(out, []interface{}{m, n})
+				}
+			}
+		}
+		return NewTextSet(out)
+	})
+}
+
+// KeyedLoose: arrays of at most two members over objects whose set key "id" is duplicated between members,
+// null, missing, or a string that prints like a number - outside the "identified by keys" precondition of the
+// patch properties, but inside "for every a, b" of Equals (C04) and of the Diff-empty biconditional (C05).
+func KeyedLoose() *TextSet {
+	return memoize("KeyedLoose", func() *TextSet {
+		members := []V{
+			map[string]interface{}{"id": 1.0, "v": 1.0}, map[string]interface{}{"id": 1.0, "v": 2.0}, map[string]interface{}{"id": 2.0, "v": 1.0},
+			map[string]interface{}{"id": nil, "v": 1.0}, map[string]interface{}{"v": 1.0}, map[string]interface{}{"v": 2.0},
+			map[string]interface{}{"id": "1", "v": 1.0}, map[string]interface{}{"id": 1.0},
+		}
+		return NewTextSet(gen.Arrays(2, members))
+	})
+}
+
 // Huge: lists whose LCS table exceeds 2^20 cells and bags with more than 1024 distinct members.
 func Huge() *TextSet {
 	return memoize("Huge", func() *TextSet {
